@@ -275,51 +275,62 @@ func c11Direct(c *Ctx) {
 			}
 		}
 	}
+	// ... x the response-level fields: more_results / more_results_in_region absent, true or
+	// false, scanner id present or not
+	tri := []*bool{nil, proto.Bool(true), proto.Bool(false)}
 	for si, seq := range seqs {
-		for _, allow := range []bool{false, true} {
-			unit := fmt.Sprintf("scanshape|%v|allowpartial=%v", seq, allow)
-			if c.Filter != "" && c.Filter != unit {
-				continue
-			}
-			if !own() {
-				continue
-			}
-			_ = si
-			n++
-			nt++
-			resp := &pb.ScanResponse{ScannerId: proto.Uint64(7), MoreResults: proto.Bool(true), MoreResultsInRegion: proto.Bool(true)}
-			for _, sh := range seq {
-				res := &pb.Result{Partial: proto.Bool(sh.partial)}
-				for i := 0; i < sh.cells; i++ {
-					res.Cell = append(res.Cell, &pb.Cell{Row: []byte(sh.row), Family: []byte("f"), Qualifier: []byte{'q', byte('0' + i)}, Value: []byte("v")})
+		for fl := 0; fl < 18; fl++ {
+			for _, allow := range []bool{false, true} {
+				if fl != 4 && len(seq) > 2 {
+					continue // the flag product for sequences of <=2 results
 				}
-				resp.Results = append(resp.Results, res)
-			}
-			stub := &shapeRPC{first: resp}
-			opts := []func(hrpc.Call) error{}
-			if allow {
-				opts = append(opts, hrpc.AllowPartialResults())
-			}
-			sc, _ := hrpc.NewScanStr(context.Background(), "t", opts...)
-			calls := 0
-			m := catch(func() {
-				s := gohbase.VNewScanner(stub, sc, quietLogger)
-				for calls = 0; calls < 50; calls++ {
-					if _, err := s.Next(); err != nil {
-						break
+				unit := fmt.Sprintf("scanshape|%v|flags=%d|allowpartial=%v", seq, fl, allow)
+				if c.Filter != "" && c.Filter != unit {
+					continue
+				}
+				if !own() {
+					continue
+				}
+				_ = si
+				n++
+				nt++
+				resp := &pb.ScanResponse{MoreResults: tri[fl%3], MoreResultsInRegion: tri[(fl/3)%3]}
+				if fl < 9 {
+					resp.ScannerId = proto.Uint64(7)
+				}
+				for _, sh := range seq {
+					res := &pb.Result{Partial: proto.Bool(sh.partial)}
+					for i := 0; i < sh.cells; i++ {
+						res.Cell = append(res.Cell, &pb.Cell{Row: []byte(sh.row), Family: []byte("f"), Qualifier: []byte{'q', byte('0' + i)}, Value: []byte("v")})
 					}
+					resp.Results = append(resp.Results, res)
 				}
-				s.Close()
-			})
-			switch {
-			case m != "":
-				r.Direct(unit, true, "", &explore.Finding{Class: "scanner-panics-on-odd-result-shapes", Msg: fmt.Sprintf("first scan response with results %v (cells, partial flag, row)\n%s", seq, firstLines(m, 12))},
-					func() any { return map[string]any{"unit": unit} })
-			case calls >= 50:
-				r.Direct(unit, true, "", &explore.Finding{Class: "scanner-does-not-end-on-odd-result-shapes", Msg: fmt.Sprintf("results %v: 50 Next calls without the end of the scan", seq)},
-					func() any { return map[string]any{"unit": unit} })
-			default:
-				outc["scanshape-ok"]++
+				stub := &shapeRPC{first: resp}
+				opts := []func(hrpc.Call) error{}
+				if allow {
+					opts = append(opts, hrpc.AllowPartialResults())
+				}
+				sc, _ := hrpc.NewScanStr(context.Background(), "t", opts...)
+				calls := 0
+				m := catch(func() {
+					s := gohbase.VNewScanner(stub, sc, quietLogger)
+					for calls = 0; calls < 50; calls++ {
+						if _, err := s.Next(); err != nil {
+							break
+						}
+					}
+					s.Close()
+				})
+				switch {
+				case m != "":
+					r.Direct(unit, true, "", &explore.Finding{Class: "scanner-panics-on-odd-result-shapes", Msg: fmt.Sprintf("first scan response with results %v (cells, partial flag, row)\n%s", seq, firstLines(m, 12))},
+						func() any { return map[string]any{"unit": unit} })
+				case calls >= 50:
+					r.Direct(unit, true, "", &explore.Finding{Class: "scanner-does-not-end-on-odd-result-shapes", Msg: fmt.Sprintf("results %v: 50 Next calls without the end of the scan", seq)},
+						func() any { return map[string]any{"unit": unit} })
+				default:
+					outc["scanshape-ok"]++
+				}
 			}
 		}
 	}
@@ -433,12 +444,12 @@ func i32p(v int32) *int32   { return &v }
 // c11Kinds: the outstanding call(s) and the valid response for each kind.
 type c11Kind struct {
 	lateCancel []int // calls whose context ends after they were queued and before the multi is flushed
-	name  string
-	calls []callSpec
-	cfg   rigCfg
-	scan  bool
-	base  func(id uint32) *respParts
-	muts  func() []c11Mut
+	name       string
+	calls      []callSpec
+	cfg        rigCfg
+	scan       bool
+	base       func(id uint32) *respParts
+	muts       func() []c11Mut
 }
 
 func kvBytes(row string, n int) []byte {
@@ -485,7 +496,10 @@ func commonMuts() []c11Mut {
 				p.cells[i] = 0xff
 			}
 		}, false},
-		{"cells-zero-kv", func(p *respParts) { p.cells = []byte{0, 0, 0, 0}; p.hdr.CellBlockMeta = &pb.CellBlockMeta{Length: u32p(4)} }, false},
+		{"cells-zero-kv", func(p *respParts) {
+			p.cells = []byte{0, 0, 0, 0}
+			p.hdr.CellBlockMeta = &pb.CellBlockMeta{Length: u32p(4)}
+		}, false},
 		{"frame-short-1", func(p *respParts) { b := p.bytes(); p.frameLen = u32p(uint32(len(b) - 4 - 1)) }, false},
 		{"frame-long-1", func(p *respParts) { b := p.bytes(); p.frameLen = u32p(uint32(len(b) - 4 + 1)) }, false},
 		{"frame-zero", func(p *respParts) { p.frameLen = u32p(0) }, false},
@@ -505,7 +519,10 @@ func commonMuts() []c11Mut {
 		}, false})
 	}
 	ms = append(ms, c11Mut{"cellblockmeta=len+1", func(p *respParts) { p.hdr.CellBlockMeta = &pb.CellBlockMeta{Length: u32p(uint32(len(p.cells)) + 1)} }, false},
-		c11Mut{"cellblockmeta=framesize+1", func(p *respParts) { b := p.bytes(); p.hdr.CellBlockMeta = &pb.CellBlockMeta{Length: u32p(uint32(len(b)))} }, false},
+		c11Mut{"cellblockmeta=framesize+1", func(p *respParts) {
+			b := p.bytes()
+			p.hdr.CellBlockMeta = &pb.CellBlockMeta{Length: u32p(uint32(len(b)))}
+		}, false},
 		c11Mut{"cellblockmeta=len-1", func(p *respParts) {
 			if len(p.cells) > 0 {
 				p.hdr.CellBlockMeta = &pb.CellBlockMeta{Length: u32p(uint32(len(p.cells)) - 1)}
@@ -1153,8 +1170,8 @@ func frameDeclaresHuge(frame []byte, kind string) bool {
 func init() {
 	register(&Prop{
 		ID: "C11", Level: "fault_enumeration",
-		Technique: "bounded exhaustive malformed-input enumeration: all short byte strings and the full boundary product of KeyValue length fields into the cellblock reader, every region-info value prefix/corruption, and structure-aware mutations / every truncation / byte flips of valid get, mutate, scan and multi response frames delivered through the real reader goroutine under the controlled scheduler",
-		Rule: "A: all byte strings of length <=2 (thorough <=3), all strings <=6 (8) over {00,01,0e,7f,80,ff}, 10x10x10x8x6 boundary values of kvLen/keyLen/valueLen/rowLen/famLen on exact, short and two-cell buffers (capacity = length), truncations x declared counts, 60+ region-info values. B: for each of 4 response kinds ~45-60 field mutations (call id, exception parts, delimiters, cell_block_meta.length, associated_cell_count, cells_per_result vs flags, multi index / duplicate / result-and-exception / region-result count / nameless exceptions, frame length) singly (thorough: in pairs), every truncation, 5 values at every byte, damaged compressed cellblocks; frames whose counts drive allocations run in a sub-process with a 2 GiB limit. Oracle: no panic in any thread, no caller or reader stranded, later calls served or refused. Non-trivial = every malformed input. Part A also: every hbase:meta row KEY of length <=5 over {t , a 1 00} with a valid region-info value, parsed and then used like a looked-up region (put into a cache that knows a region of the table, looked up); every sequence of <=2 (thorough 3) scan-result shapes (0-2 cells, partial flag, row a/b) as a first response through the real scanner, partial results allowed or not (no panic, the scan ends). Tier W: structurally valid answers with odd contents through the public API - increment / append / get / put / check-and-put x {0-2 cells x value lengths 0,1,7,8,9; no result; no processed flag; cells in the protobuf as well as in the cellblock}: the call returns a value or an error.",
+		Technique:   "bounded exhaustive malformed-input enumeration: all short byte strings and the full boundary product of KeyValue length fields into the cellblock reader, every region-info value prefix/corruption, and structure-aware mutations / every truncation / byte flips of valid get, mutate, scan and multi response frames delivered through the real reader goroutine under the controlled scheduler",
+		Rule:        "A: all byte strings of length <=2 (thorough <=3), all strings <=6 (8) over {00,01,0e,7f,80,ff}, 10x10x10x8x6 boundary values of kvLen/keyLen/valueLen/rowLen/famLen on exact, short and two-cell buffers (capacity = length), truncations x declared counts, 60+ region-info values. B: for each of 4 response kinds ~45-60 field mutations (call id, exception parts, delimiters, cell_block_meta.length, associated_cell_count, cells_per_result vs flags, multi index / duplicate / result-and-exception / region-result count / nameless exceptions, frame length) singly (thorough: in pairs), every truncation, 5 values at every byte, damaged compressed cellblocks; frames whose counts drive allocations run in a sub-process with a 2 GiB limit. Oracle: no panic in any thread, no caller or reader stranded, later calls served or refused. Non-trivial = every malformed input. Part A also: every hbase:meta row KEY of length <=5 over {t , a 1 00} with a valid region-info value, parsed and then used like a looked-up region (put into a cache that knows a region of the table, looked up); every sequence of <=2 (thorough 3) scan-result shapes (0-2 cells, partial flag, row a/b) as a first response through the real scanner, partial results allowed or not (no panic, the scan ends). Tier W: structurally valid answers with odd contents through the public API - increment / append / get / put / check-and-put x {0-2 cells x value lengths 0,1,7,8,9; no result; no processed flag; cells in the protobuf as well as in the cellblock}: the call returns a value or an error.",
 		Assumptions: []string{"allocation of a frame's own declared length (the 4-byte prefix) is inherent to the framing and not judged; prefixes above 1 MiB are not generated", "default thread schedule for part B (schedules are C03's subject)"},
 		Quick:       120 * time.Second, Thorough: 20 * time.Minute,
 		Units: c11Units, Direct: c11Direct,
